@@ -94,6 +94,8 @@ def main(argv=None):
     cell_by_id = {c['id']: c for c in cells}
     known = load_known()
     violations, known_hits, inconclusive = [], {}, []
+    boundary_only = []
+    n_div = 0
     tot = {'paths': 0, 'paths_ok': 0, 'aborted': 0, 'obligations': 0, 'discharged_ground': 0, 'discharged_solver': 0,
            'native_runs': 0, 'decisions': 0, 'roundings': 0, 'native_vacuous': 0}
     stats = {}
@@ -128,8 +130,8 @@ def main(argv=None):
         for e in r['harness_errors'][:3]:
             inconclusive.append({'cell': r['id'], 'why': 'exception not reproduced natively: ' + e['error'],
                                  'traceback': e['traceback']})
-        for d in r['divergences'][:3]:
-            inconclusive.append({'cell': r['id'], 'why': 'symbolic/native divergence', 'detail': d})
+        n_div += len(r['divergences'])
+        boundary_only.extend(dict(b, cell=r['id']) for b in r.get('boundary_only', [])[:3])
         for inc in r['inconclusive'][:5]:
             inc = dict(inc)
             inc['cell'] = r['id']
@@ -185,11 +187,11 @@ def main(argv=None):
           f"obligations={tot['obligations']} discharged={disch} (identity {tot['discharged_ground']}, solver {tot['discharged_solver']}) "
           f"queries={stats.get('queries', 0)} sat={stats.get('sat', 0)} unsat={stats.get('unsat', 0)} unknown={stats.get('unknown', 0)} "
           f"solver_s={stats.get('solver_s', 0):.1f} native_runs={tot['native_runs']} violations={len(violations)} "
-          f"known={len(known_hits)} inconclusive={len(inconclusive)} wall={wall:.1f}s")
+          f"known={len(known_hits)} inconclusive={len(inconclusive)} boundary_only={len(boundary_only)} wall={wall:.1f}s")
 
     if not args.no_evidence and not args.cell:
         write_evidence(mod, prop, args.tier, seed, cells, tot, stats, functions, samples, outcomes, labels,
-                       violations, known_hits, inconclusive, wall)
+                       violations, known_hits, inconclusive, wall, boundary_only, n_div)
     if violations:
         return EXIT_VIOLATION
     if inconclusive:
@@ -198,7 +200,7 @@ def main(argv=None):
 
 
 def write_evidence(mod, prop, tier, seed, cells, tot, stats, functions, samples, outcomes, labels, violations,
-                   known_hits, inconclusive, wall):
+                   known_hits, inconclusive, wall, boundary_only=(), n_div=0):
     disch = tot['discharged_ground'] + tot['discharged_solver']
     forks = stats.get('forks', 0)
     ev = {
@@ -233,6 +235,8 @@ def write_evidence(mod, prop, tier, seed, cells, tot, stats, functions, samples,
             'outside_bounds': getattr(mod, 'OUTSIDE', ''),
             'known_findings_reproduced': sorted(known_hits),
             'inconclusive': [{k: v for k, v in i.items() if k != 'traceback'} for i in inconclusive[:10]],
+            'real_model_only_boundary_cases': list(boundary_only)[:10],
+            'paths_where_float_run_took_another_branch': n_div,
             'exhaustive': False,
         },
         'assumptions': list(getattr(mod, 'ASSUMPTIONS', [])) + COMMON_ASSUMPTIONS,
